@@ -485,29 +485,35 @@ ADM_WALK = '  Addrs = {"s", "d", "u"}\n  DynAddrs = {"d"}\n  MaxSess = 6\n  MaxG
 ADM_INVS = ["TypeOK", "OnePerDirection", "SlotHeld", "LiveIsAdmitted", "DynamicHasConnection"]
 
 
-def admission(c):
-    """C16 admission half: Admission.tla design check + random behaviours on the real accept_connection / run / API handlers."""
+def admission(c, slots_only=False):
+    """C16 admission half: Admission.tla design check + random behaviours on the real accept_connection / run / API handlers.
+    slots_only (C07): only the replay, as the binding of 'at most one connection per direction, the slot is held until the
+    connection has been torn down and free afterwards' to the real ConnArbiter."""
     spec = os.path.join(vf.ROOT, "spec", "Admission")
     thorough = c.tier == "thorough"
-    r = vf.tlc(spec, "Admission", _adm_cfg("C16.adm.design.cfg", ADM_FULL if thorough else ADM_SMALL, "Spec", ADM_INVS),
-               workers=12 if thorough else 6, timeout=2400)
-    c.add_tlc("admission-design", r)
-    if r.violated:
-        c.violation("admission.design", {"invariant": r.violated, "tlc": r.error_text[:3000]}, {"spec": "Admission"})
-        return 0
-    for dev in ("ForceDownFreesSlot", "EndIgnoresGeneration"):
-        rv = vf.tlc(spec, "Admission", _adm_cfg("C16.adm.dev.cfg", ADM_SMALL, "Spec", ADM_INVS, dev=[dev]), workers=4, timeout=600, quiet=True)
-        if not rv.violated:
-            raise vf.ToolError(f"Admission: invariants are vacuous (deviation {dev} not detected)")
+    tag = "C07" if slots_only else "C16"
+    if not slots_only:
+        r = vf.tlc(spec, "Admission", _adm_cfg("C16.adm.design.cfg", ADM_FULL if thorough else ADM_SMALL, "Spec", ADM_INVS),
+                   workers=12 if thorough else 6, timeout=2400)
+        c.add_tlc("admission-design", r)
+        if r.violated:
+            c.violation("admission.design", {"invariant": r.violated, "tlc": r.error_text[:3000]}, {"spec": "Admission"})
+            return 0
+        for dev in ("ForceDownFreesSlot", "EndIgnoresGeneration"):
+            rv = vf.tlc(spec, "Admission", _adm_cfg("C16.adm.dev.cfg", ADM_SMALL, "Spec", ADM_INVS, dev=[dev]), workers=4, timeout=600, quiet=True)
+            if not rv.violated:
+                raise vf.ToolError(f"Admission: invariants are vacuous (deviation {dev} not detected)")
     num, depth = (2500, 30) if thorough else (250, 25)
-    rw = vf.tlc(spec, "AdmissionMC", _adm_cfg("C16.adm.walk.cfg", ADM_WALK, "GenSpec", ["EmitWalk"]),
-                workers=1, timeout=1500, simulate=num, depth=depth, seed=c.seed + 11, heap="4g")
+    if slots_only:
+        num = 800 if thorough else 150
+    rw = vf.tlc(spec, "AdmissionMC", _adm_cfg(f"{tag}.adm.walk.cfg", ADM_WALK, "GenSpec", ["EmitWalk"]),
+                workers=1, timeout=1500, simulate=num, depth=depth, seed=c.seed + (17 if slots_only else 11), heap="4g")
     walks = vf.parse_walks(rw.stdout)
     c.add_tlc("admission-walks", rw)
     if not walks:
         raise vf.ToolError("AdmissionMC produced no walks")
-    inp = os.path.join(vf.WORK, "C16.adm.in")
-    outp = os.path.join(vf.WORK, "C16.adm.out")
+    inp = os.path.join(vf.WORK, f"{tag}.adm.in")
+    outp = os.path.join(vf.WORK, f"{tag}.adm.out")
     exp = []
     with open(inp, "w") as f:
         for w in walks:
